@@ -127,6 +127,7 @@ type LockAnalysis struct {
 	reacq []Reacquire
 	Prog  *Prog
 	entry map[*Fn]Lockset              // entry lockset (caller holds)
+	dead  map[*Fn]bool                 // unexported functions nothing references
 	at    map[*Fn]map[ast.Node]Lockset // lockset before each top-level CFG node
 	exit  map[*Fn][]exitState
 	lits  map[*ast.FuncLit]*Fn
@@ -249,10 +250,48 @@ func (p *Prog) AnalyseLocks(pkgs ...string) *LockAnalysis {
 			}
 		}
 		if !changed {
+			// functions that nothing references (a helper left behind after all its calls were expanded, dead code):
+			// no execution reaches them
+			la.dead = map[*Fn]bool{}
+			for _, f := range fns {
+				if escapes[f] || seenCall[f] || f.Obj == nil || f.Obj.Exported() || f.Lit != nil {
+					continue
+				}
+				if inInterface(p, f) {
+					continue
+				}
+				la.dead[f] = true
+			}
 			break
 		}
 	}
 	return la
+}
+
+// inInterface: some interface type of the function's package declares a method with its name (it may be called
+// dynamically).
+func inInterface(p *Prog, f *Fn) bool {
+	if f.Decl == nil || f.Decl.Recv == nil {
+		return false
+	}
+	found := false
+	for _, file := range f.Pkg.Syntax {
+		ast.Inspect(file, func(n ast.Node) bool {
+			it, ok := n.(*ast.InterfaceType)
+			if !ok || it.Methods == nil {
+				return !found
+			}
+			for _, m := range it.Methods.List {
+				for _, nm := range m.Names {
+					if nm.Name == f.Decl.Name.Name {
+						found = true
+					}
+				}
+			}
+			return !found
+		})
+	}
+	return found
 }
 
 // flow runs the lockset dataflow for one function and records the lockset
@@ -626,6 +665,10 @@ func (la *LockAnalysis) CheckGuarded(fld, lock *types.Var, exempt map[string]boo
 	var out []GuardedAccess
 	for _, a := range la.Prog.FieldAccesses(fld) {
 		if a.Fn == nil || exempt[a.Fn.Name()] {
+			continue
+		}
+		if la.dead[a.Fn] {
+			out = append(out, GuardedAccess{Access: a, OK: true, Why: "the function is never referenced (unreachable)"})
 			continue
 		}
 		held := la.HeldAt(a.Fn, a.Sel)
